@@ -399,7 +399,7 @@ fn body(ctx: &mut Ctx) {
     let excluded = std::cell::Cell::new(0u64);
     let steps = ctx.scale(120, 300);
     for (policy, name) in [(0u8, "saturate.local"), (1, "churn.local"), (2, "random.local")] {
-        let n = ctx.scale(6_000, 120_000);
+        let n = ctx.scale([3_000, 2_000, 3_000][policy as usize], 120_000);
         let strat = adv_strategy(steps, exclude).prop_map(move |mut c| {
             c.policy = policy;
             c
@@ -411,7 +411,7 @@ fn body(ctx: &mut Ctx) {
             run(Variant::Local, c, obs)
         });
     }
-    let n = ctx.scale(1_200, 25_000);
+    let n = ctx.scale(800, 25_000);
     ctx.proptest("adversary.ipc", cases(n), adv_strategy(steps, exclude), |c, obs| {
         if c.excluded {
             excluded.set(excluded.get() + 1);
